@@ -1018,6 +1018,11 @@ Section ForestSound.
       apply (region_admissible A sem sem_proper Htr F Hpw Fcl Hcl Hcl_type Hacc g r p q e ef Hadm forest_region_facts Hev).
       intros n u v Hn. apply forest_rank. exact Hn.
     Qed.
+    Lemma forest_frame : frame3 A sem (tg_nodes (apply_forest g f)) (map out_of (f_es f)) e ef.
+    Proof.
+      apply (region_frame A sem sem_proper Htr F Hpw Fcl Hcl Hcl_type Hacc g r p q e ef Hadm forest_region_facts Hev).
+      intros n u v Hn. apply forest_rank. exact Hn.
+    Qed.
   End Forest.
 End ForestSound.
 
@@ -1409,6 +1414,14 @@ Section AddSound.
     intros pr yv _ Hpr E0. destruct (a_es_in pr Hpr) as (Hprin & _).
     apply (add_rank_forward (tg_nodes g) [] (eq_sym (app_nil_r _)) pr yv Hpr Hprin E0).
   Qed.
+  Lemma add_frame : frame3 A sem (tg_nodes (apply_add g st)) (map out_of (as_chain st)) e ef.
+  Proof.
+    apply (region_frame A sem sem_proper Htr F Hpw Fcl Hcl Hcl_type Hacc g r p q e ef Hadm add_region_facts Hev).
+    intros n u v Hn _ Hu Ev. cbn [r add_region r_es] in Hn.
+    apply (add_operand_rank (fun _ => True) n u v Hn Hu Ev); auto.
+    intros pr yv _ Hpr E0. destruct (a_es_in pr Hpr) as (Hprin & _).
+    apply (add_rank_forward (tg_nodes g) [] (eq_sym (app_nil_r _)) pr yv Hpr Hprin E0).
+  Qed.
 End AddSound.
 
 (* ================================================================ every action kind of the pass *)
@@ -1527,6 +1540,60 @@ Section AllKinds.
     - destruct (decide_D_multi_facts g T1 src a0 b HT1 Hd) as (T2 & p & q & H2 & HT1' & Hp & Hs & Ho & HT2 & Hq & Hi & Hob & Hinv & Hne).
       destruct (tmulti_admissible A sem sem_proper Htr g e ef T1 T2 p q src a0 b Hadm HT1 H2 HT1' Hp Hs Ho HT2 Hq Hi Hob Hinv Hne Hev) as [H1 H2'].
       exact H1.
+  Qed.
+
+  (* the names whose value a fold of each kind may change: the outputs of the members it moves *)
+  Definition changed_of (act : taction) : list name :=
+    match act with
+    | TAddChain st => map out_of (as_chain st)
+    | TForest f => map out_of (f_es f)
+    | TDag d => map out_of (d_es d)
+    | TChain a => chain_outs a
+    | TMulti _ _ _ => []
+    end.
+
+  Theorem transpose_pair_action_frame g act e ef : tadmissible g e -> evalg (tg_nodes g) e = Some ef ->
+    decide_step g = Some act -> proved_kind_all g act = true -> frame3 A sem (tg_nodes (apply_taction g act)) (changed_of act) e ef.
+  Proof.
+    intros Hadm Hev Hdec Hk. unfold decide_step in Hdec.
+    destruct (first_some (decide_add g) (tg_nodes g)) as [st|] eqn:Eadd.
+    { injection Hdec as <-. apply first_some_spec in Eadd as (start & Hstart & Hd).
+      destruct (decide_add_facts g start st Hstart Hd) as (p & q & Haf).
+      exact (add_frame A sem sem_proper Htr F Hpw Fcl Hcl Hcl_type Hacc g st p q e ef Haf Hadm Hev). }
+    destruct (first_some (decide_forest g) (tg_nodes g)) as [f|] eqn:Efor.
+    { injection Hdec as <-. apply first_some_spec in Efor as (t2 & Ht2 & Hd).
+      destruct (decide_forest_facts g t2 f Hd) as (v0 & p & q & Hff). simpl in Hk.
+      exact (forest_frame A sem sem_proper Htr F Hpw Fcl Hcl Hcl_type Hacc g t2 f v0 p q e ef Hff Hadm Hev Hk). }
+    pose proof (spec_a_n A sem op_type F Hpwa) as Hpwn. pose proof (accepts_a_n A sem op_type Hacca) as Haccn.
+    destruct (first_some (decide_dag g) (tg_nodes g)) as [d|] eqn:Edag.
+    { injection Hdec as <-. apply first_some_spec in Edag as (t2 & Ht2 & Hd).
+      assert (Ht2d : d_T2 d = t2).
+      { unfold decide_dag in Hd. destruct (is_T t2); [|discriminate]. cbn [negb] in Hd.
+        destruct (first_in t2); [|discriminate]. destruct (perm_of t2); [|discriminate].
+        destruct (collect _ _ _ _ _ _) as [[[|T1 [|]] es]|]; try discriminate.
+        destruct (node_eqb T1 t2); [discriminate|]. destruct (perm_of T1); [|discriminate]. destruct (out1 T1); [|discriminate].
+        destruct (first_in T1); [|discriminate]. destruct (n_outs t2); [discriminate|]. destruct (_ && _); [|discriminate].
+        now injection Hd as <-. }
+      simpl in Hk. destruct (d_es d) eqn:Ees; [|discriminate]. rewrite <- Ht2d in Ht2, Hd.
+      destruct (tdag_direct_facts A sem Htr g d e ef Hadm Ht2 Hd Ees Hev) as (T1 & p & q & a & Htf & Hch & Heq).
+      assert (Hdf : castlike_data_first (ac_t1 a) (ac_chain a) = true) by (now rewrite Hch).
+      pose proof (tchain_frame A sem sem_proper Htr F Hpwn Fcl Hcl Hcl_type Haccn g a T1 (d_T2 d) p q e ef Hadm Htf Hdf Hev) as Hfr.
+      change (tg_graph g) with (mkGraph (tg_nodes g) (tg_outputs g)) in Heq.
+      rewrite (rewire_eq _ _ a T1 (d_T2 d) (proj1 (tadm_ssa _ _ _ _ Hadm)) (tf_struct _ _ _ _ _ _ Htf)) in Heq.
+      cbn [apply_taction changed_of]. rewrite Ees. cbn [map].
+      assert (Hco : chain_outs a = []) by (unfold chain_outs; now rewrite Hch). rewrite Hco in Hfr.
+      assert (Hn : tg_nodes (apply_dag g d) = map (subst_map (rho a)) (filter (keep a) (tg_nodes g))) by exact (f_equal g_nodes Heq).
+      rewrite Hn. exact Hfr. }
+    apply first_some_spec in Hdec as (T1 & HT1 & Hd). pose proof (decide_D_kind g T1 act Hd) as Hkind.
+    destruct act as [st|f|d|a|src a0 b]; try contradiction.
+    - destruct (decide_D_chain_facts g T1 a HT1 Hd) as (T2 & p & q & Htf).
+      pose proof (tchain_frame A sem sem_proper Htr F Hpwn Fcl Hcl Hcl_type Haccn g a T1 T2 p q e ef Hadm Htf Hk Hev) as Hfr.
+      cbn [apply_taction changed_of].
+      assert (Hn : tg_nodes (apply_chain g a) = map (subst_map (rho a)) (filter (keep a) (tg_nodes g))).
+      { exact (f_equal g_nodes (rewire_eq _ _ a T1 T2 (proj1 (tadm_ssa _ _ _ _ Hadm)) (tf_struct _ _ _ _ _ _ Htf))). }
+      rewrite Hn. exact Hfr.
+    - destruct (decide_D_multi_facts g T1 src a0 b HT1 Hd) as (T2 & p & q & H2 & HT1' & Hp & Hs & Ho & HT2 & Hq & Hi & Hob & Hinv & Hne).
+      exact (tmulti_frame A sem sem_proper Htr g e ef T1 T2 p q src a0 b Hadm HT1 H2 HT1' Hp Hs Ho HT2 Hq Hi Hob Hinv Hne Hev).
   Qed.
 
   (* the purely computational part of what used to be assumed along the loop *)
